@@ -146,6 +146,7 @@ def audit_sources():
 
 
 TRANSLATOR_ERROR = None
+TIER = "quick"
 
 
 def prove(theorems, modules):
@@ -200,6 +201,14 @@ def prove(theorems, modules):
     if bad:
         res["detail"] = "; ".join(bad)
         return res
+    if TIER == "thorough":
+        # independent re-check of the compiled proof modules by the toolchain's external checker
+        lc = sh(["lake", "env", "leanchecker"] + modules, cwd=LEAN, timeout=1800)
+        res["leanchecker"] = "ok" if lc.returncode == 0 else "FAILED"
+        if lc.returncode != 0:
+            res["detail"] = "leanchecker rejected the compiled modules: " + (lc.stdout.decode(errors="replace") + lc.stderr.decode(errors="replace"))[-1500:]
+            res["discharged"] = 0
+            return res
     res["ok"] = True
     log("[prove] %d theorems, axioms clean, %.1fs" % (len(theorems), time.time() - t))
     return res
@@ -342,6 +351,8 @@ def conclude(pid, tier, level, proof, tie_breaks, violations, coverage, assumpti
     cov["checker_cmd"] = "cd /verif/lean && lake build && lake env lean <Audit.lean with #print axioms>; thorough: lake env leanchecker"
     cov.setdefault("trusted_base", [])
     cov["theorem_axioms"] = proof.get("axioms", {})
+    if "leanchecker" in proof:
+        cov["leanchecker"] = proof["leanchecker"]
     cov["tie_breaks"] = len(tie_breaks)
     cov["known_findings_seen"] = sorted(seen_known)
     if new:
